@@ -211,3 +211,20 @@
 #endif
 
 // clang-format on
+
+///////////////////////////////////////////////////////////////////////////////
+// Verification hooks (off unless PIKA_VERIF is defined; see /verif/DESIGN.md)
+#if defined(PIKA_VERIF)
+#include <atomic>
+#include <cstdint>
+namespace pika::verif {
+    using hook_t = void (*)(int site, void const* obj, std::uint64_t a, std::uint64_t b);
+    PIKA_EXPORT extern std::atomic<hook_t> hook;
+    inline void point(
+        int site, void const* obj = nullptr, std::uint64_t a = 0, std::uint64_t b = 0) noexcept
+    {
+        if (hook_t h = hook.load(std::memory_order_acquire)) h(site, obj, a, b);
+    }
+}    // namespace pika::verif
+#define PIKA_VERIF_POINT(...) ::pika::verif::point(__VA_ARGS__)
+#endif
